@@ -7,6 +7,14 @@ HERE = Path(__file__).resolve().parent.parent
 
 # id: (level, technique, level text, level note)
 CHECKS = {
+ 'C17': ('fault_enumeration',
+         'sys.monitoring LINE-event crash-point recorder (directory snapshot between every two executed Darr lines) + synthesised torn writes; offline check of every materialised state',
+         'For each scenario (append, iterappend, iterappend with failing iterable / bad chunk, truncate, four metadata changes) '
+         'on 1-D/2-D Arrays and RaggedArrays from empty and non-empty starts, a LINE-event monitor restricted to Darr code '
+         'snapshots the directory between every two executed source lines; every distinct state, and torn versions of every '
+         'file that changes between consecutive states, is materialised and opened: an open that succeeds must show the state '
+         'before, after, or original + a whole number of chunks/subarrays, and legitimate metadata.',
+         'Crash granularity is Darr source lines plus the listed torn variants; cross-file write reordering by the OS (power loss) is outside the property.'),
  'C04': ('exploration',
          'history + executable list-of-ndarrays model; bounded-exhaustive op sequences plus long random histories',
          'Operation sequences over append / iterappend / truncate / mode change / reopen (plus copy, overwrite re-creation, '
